@@ -80,13 +80,13 @@ def r1(run, db):
 def r2(run, db):
     cf = run.need(db.one(r"NodeServerState::candidates_for_peer$"), "candidates_for_peer")
     cs = db.calls_of(cf.id)
-    run.anchor("candidates_for_peer call sites", len(cs), 4)
+    run.anchor("candidates_for_peer call sites", len(cs), 2)      # every call site is checked; callers may share a wrapper
     for c in cs:
         v = c.fn.value_consts(c.args[2])
         run.check(v == ["true"], "authenticated-only:%s" % c.fn.id.split("::")[-1], "%s gathers competitors with authenticated_only = true" % c.fn.id.split("::")[-1],
                   "%s gathers competitors with authenticated_only = %s: a session that merely claims the peer's name takes part in the election" % (c.fn.id, v or "a non-constant"), c.where())
     # the filter really uses the flag
-    fl = [g for g in db.children(cf.id)]
+    fl = db.family(cf.id)        # the filter closure, or the loop written out in the body
     okf = any(any(x.matches(r"HashSet::<T, S, A>::contains$") for x in g.calls()) for g in fl)
     run.check(okf, "filter-consults-authenticated-set", "the candidate filter consults authenticated_sessions", "candidate filter no longer consults the authenticated set", cf.where())
     cc = run.need(db.one(r"NodeServerState::check_candidate$"), "check_candidate")
